@@ -94,6 +94,7 @@ T_KINDS = (
     + [dict(kind='periodic_gaussian_t_profile', direction=d, pnum=p, jitter=True)
        for p in (3, 2) for d in ('up', 'down', 'rand')]
     + [dict(kind='periodic_gaussian_t_profile', direction=d, pnum=3, jitter=False) for d in ('up', 'down')]
+    + [dict(kind='periodic_gaussian_t_profile', direction='down', pnum=3, jitter=False, deep=True)]
     + [dict(kind='custom'), dict(kind='array'), dict(kind='list'), dict(kind='float'), dict(kind='int')]
 )
 WIDTHS = [0.3, 1.0, 2.5]
@@ -232,6 +233,9 @@ def concretise(case, fs, ts):
         tsp = dict(kind=k, pulse_width=1.2 * dt, period=2.5 * dt, phase=0.3 * dt,
                    pulse_offset_width=(0.4 * dt if t['jitter'] else 0), pulse_direction=t['direction'],
                    pnum=t['pnum'], amplitude=0.8, level=1.0, min_level=0.3, seed=2000 + 13 * seed)
+        if t.get('deep'):
+            # pulses deeper than the baseline, floor left at its documented default of 0
+            tsp.update(amplitude=1.6, min_level=None)
     elif k == 'custom':
         tsp = dict(kind='custom', name='cos_t', params=dict(level=1.0, amp=0.25, w=0.9 / dt))
     elif k in ('array', 'list'):
